@@ -40,6 +40,7 @@ import (
 	"github.com/vektah/gqlparser/v2/parser"
 	"github.com/vektah/gqlparser/v2/validator"
 
+	legacy "github.com/99designs/gqlgen/handler"
 	"verif/internal/ev"
 	"verif/internal/sjson"
 	core_c0 "verif/work/farm/cur/core_c0"
@@ -661,6 +662,7 @@ func main() {
 		rep.Inconclusive("no disabled-mode case ran")
 	}
 	atomic.AddInt64(&sh.evals, serviceChecks(rep))
+	legacyEntryPoint(rep, sh)
 	os.Exit(rep.Finish(atomic.LoadInt64(&sh.evals), int64(rep.DistinctLen("nontrivial")+rep.DistinctLen("disabled_documents"))))
 }
 
@@ -864,4 +866,40 @@ func doReplay(rep *ev.Reporter, sh *shared, vs []variant, path string) int {
 		sh.runDisabled(newRunner(es, false), hs, &dc)
 	}
 	return rep.Finish(1, 2)
+}
+
+// legacyEntryPoint: the deprecated handler.GraphQL(es, options...) serves introspection unless
+// IntrospectionEnabled(false) is given, whatever other options are present.
+func legacyEntryPoint(rep *ev.Reporter, sh *shared) {
+	es := tx.NewExecutableSchema(tx.Config{Resolvers: &tx.Stub{}})
+	const q = `{"query":"{ __schema { queryType { name } } t: __type(name: \"Query\") { kind } }"}`
+	for _, c := range []struct {
+		name    string
+		opts    []legacy.Option
+		enabled bool
+	}{
+		{"no options", nil, true},
+		{"ComplexityLimit", []legacy.Option{legacy.ComplexityLimit(1000)}, true},
+		{"ComplexityLimitFunc", []legacy.Option{legacy.ComplexityLimitFunc(func(context.Context) int { return 1000 })}, true},
+		{"CacheSize+ComplexityLimit", []legacy.Option{legacy.CacheSize(10), legacy.ComplexityLimit(1000)}, true},
+		{"IntrospectionEnabled(false)", []legacy.Option{legacy.IntrospectionEnabled(false)}, false},
+		{"IntrospectionEnabled(false)+ComplexityLimit", []legacy.Option{legacy.IntrospectionEnabled(false), legacy.ComplexityLimit(1000)}, false},
+		{"IntrospectionEnabled(true)+ComplexityLimit", []legacy.Option{legacy.IntrospectionEnabled(true), legacy.ComplexityLimit(1000)}, true},
+	} {
+		h := legacy.GraphQL(es, c.opts...)
+		r := httptest.NewRequest("POST", "/query", strings.NewReader(q))
+		r.Header.Set("Content-Type", "application/json")
+		w := httptest.NewRecorder()
+		h.ServeHTTP(w, r)
+		atomic.AddInt64(&sh.evals, 1)
+		rep.Count("legacy_entry_point_cases", 1)
+		body := w.Body.String()
+		served := strings.Contains(body, `"queryType":{"name":"Query"}`) && strings.Contains(body, `"kind":"OBJECT"`)
+		switch {
+		case c.enabled && !served:
+			rep.Violate("legacy-entry-point-introspection-missing", map[string]any{"why": "handler.GraphQL with options [" + c.name + "] does not serve introspection", "body": body})
+		case !c.enabled && (served || !strings.Contains(body, `"errors"`)):
+			rep.Violate("legacy-entry-point-introspection-leaks", map[string]any{"why": "handler.GraphQL with options [" + c.name + "] still describes the schema", "body": body})
+		}
+	}
 }
